@@ -648,3 +648,65 @@ func (na *NilAnalysis) globalNonNil(v *types.Var) bool {
 	}
 	return false
 }
+
+// ReachingAssign returns the right-hand side of the latest straight-line assignment to o that
+// precedes node `at` in one of its enclosing statement lists (nil when the reaching definition is
+// not a single straight-line assignment).
+func (ff *FuncFacts) ReachingAssign(o types.Object, at ast.Node) ast.Expr {
+	info := ff.Info
+	path := PathTo(ff.Body, at)
+	for i := len(path) - 2; i >= 0; i-- {
+		var list []ast.Stmt
+		switch b := path[i].(type) {
+		case *ast.BlockStmt:
+			list = b.List
+		case *ast.CaseClause:
+			list = b.Body
+		case *ast.FuncLit:
+			return nil
+		case *ast.IfStmt:
+			if as, ok := b.Init.(*ast.AssignStmt); ok && path[i+1] != ast.Node(b.Init) {
+				for k, l := range as.Lhs {
+					if id, ok := l.(*ast.Ident); ok && info.ObjectOf(id) == o && len(as.Rhs) == len(as.Lhs) {
+						return as.Rhs[k]
+					}
+				}
+			}
+			continue
+		default:
+			continue
+		}
+		child := path[i+1]
+		for j := len(list) - 1; j >= 0; j-- {
+			s := list[j]
+			if s.End() > child.Pos() {
+				continue
+			}
+			if !assignedObjs(info, []ast.Node{s})[o] {
+				continue
+			}
+			if as, ok := s.(*ast.AssignStmt); ok && len(as.Rhs) == len(as.Lhs) && (as.Tok == token.ASSIGN || as.Tok == token.DEFINE) {
+				for k, l := range as.Lhs {
+					if id, ok := l.(*ast.Ident); ok && info.ObjectOf(id) == o {
+						return as.Rhs[k]
+					}
+				}
+			}
+			if ds, ok := s.(*ast.DeclStmt); ok {
+				if gd, ok := ds.Decl.(*ast.GenDecl); ok {
+					for _, sp := range gd.Specs {
+						if vs, ok := sp.(*ast.ValueSpec); ok {
+							for k, nm := range vs.Names {
+								if info.Defs[nm] == o && k < len(vs.Values) {
+									return vs.Values[k]
+								}
+							}
+						}
+					}
+				}
+			}
+			return nil
+		}
+	}
+	return nil
+}
